@@ -19,11 +19,13 @@ pub struct Gen {
     /// upper bound for sequence lengths at the current nesting level
     pub max_len: usize,
     pub depth: usize,
+    /// "long" profile: outermost sequences get lengths around the buffer sizes a reader or writer may use
+    pub long: bool,
 }
 impl Gen {
     pub fn new(seed: u64, max_len: usize) -> Self {
         use rand::SeedableRng;
-        Gen { rng: rand::rngs::StdRng::seed_from_u64(seed), max_len, depth: 0 }
+        Gen { rng: rand::rngs::StdRng::seed_from_u64(seed), max_len, depth: 0, long: false }
     }
     pub fn below(&mut self, n: usize) -> usize {
         use rand::Rng;
@@ -35,6 +37,12 @@ impl Gen {
         match self.below(6) { 0 => 0, 1 => 0xff, 2 => 0x80, _ => self.rng.gen() }
     }
     pub fn len(&mut self) -> usize {
+        if self.long && self.depth == 0 {
+            // around 2^k for the usual buffer sizes (and a little beyond, so that multi-byte items straddle them)
+            const AROUND: [usize; 6] = [255, 1023, 1024, 2049, 4096, 8191];
+            let base = AROUND[self.below(AROUND.len())];
+            return base + self.below(5);
+        }
         let m = (self.max_len >> (2 * self.depth)).max(2);
         match self.below(5) { 0 => 0, 1 => 1, _ => self.below(m + 1) }
     }
